@@ -29,7 +29,9 @@ MarkerClauses ==
 Clauses ==
   IF c.raised # "" THEN <<"C20.raised." \o c.op>>
   ELSE MarkerClauses
-    \o (IF c.has_burst THEN Fail(HighlightOK(ToSet(c.H), c.t, c.n, c.a, c.b), "C20.burst_highlight") ELSE <<>>)
+    \o (IF c.has_burst THEN Fail(HighlightOK(ToSet(c.H), c.t, c.n, c.a, c.b), "C20.burst_highlight")
+                          \o Fail(\A k \in 1 .. Len(c.H) : c.Hy[k] = c.sig[c.H[k] + 1], "C20.highlighted_trace_is_not_the_plotted_signal")
+        ELSE <<>>)
     \o FoldLeft(LAMBDA acc, p : acc \o Fail(PanelOK(c.panels[p].verts, c.interp, c.t, c.panels[p].col, c.n, c.a, c.b), "C20.parameter_panel_values")
                                      \o Fail(c.panels[p].thr_line = c.panels[p].thr, "C20.threshold_line"),
                 <<>>, [p \in 1 .. Len(c.panels) |-> p])
